@@ -17,8 +17,10 @@ CHECKS = {
              "over all extracted classes comparing bytes, decoded values and re-encodings of model and implementation, plus "
              "direct evaluation of decode(encode(x)) == x and re-encode equality.",
         ref="3 C01", technique="Lean 4 proof over a schema regenerated from the source (translator) + generic codec model/implementation correspondence",
-        note=TB + "classes with a hand-written codec are opaque leaves of the generic model: their round trip is judged on "
-                  "the implementation only; recorded defect KF-C01-post-alonzo-flag."),
+        note=TB + "the union side condition is a premise of the typing rule, discharged per value (typedB); Value / MultiAsset / "
+                  "Asset, TransactionOutput and the decode-time list/set normalisation of TransactionBody have their own Lean "
+                  "models and round-trip theorems (Model/CustomCodec.lean, checks/c01_custom.py); the remaining hand-written "
+                  "codecs are opaque leaves judged on the implementation only; recorded defect KF-C01-both-datums."),
     "C02": dict(
         text="T1: the codec table regenerated from /repo's live classes is compared, inside the kernel (decide +kernel), with a "
              "table transliterated by hand from the Conway CDDL (Pyc/Spec/Conway.lean): per class the codec kind and type code, "
